@@ -1,6 +1,9 @@
 import RTV.Lemmas.NumExtractLit
 import RTV.Gen.NumRegexIndex
 import RTV.Gen.ReTables
+import RTV.Gen.NumFollow
+import RTV.Gen.CharTables
+import RTV.Model.Preprocess
 /-!
 # C03 — the EXTRACTION front end: a digit literal is recognised as ONE entity covering the WHOLE literal
 
@@ -12,9 +15,16 @@ RTV/Gen/NumRegex*.lean, regenerated from the pattern texts of the REAL extractor
 non-overlapping `finditer` of every family regex (`RTV.Re.findAll`, backtracking priority order) + the `matched[]`
 sweep with its exact-span `src_match` lookup + negative-term widening + `_filter_ambiguity`.
 
-Proved here, for ALL literals (any number of thousands groups, any number of decimals, either sign) and ALL carriers
-`pre ++ literal ++ post` (`pre` empty or ending in a blank and free of digits, `-`, `.`, `,`; `post` empty or starting
-with a blank and free of digits):
+Proved here ABOUT THE DIGIT FAMILY, for ALL literals (any number of thousands groups, any number of decimals, either
+sign) and ALL carriers `pre ++ literal ++ post` (`pre` empty or ending in a blank and free of digits, `-`, `.`, `,`;
+`post` empty or starting with a blank, free of digits, and — `PostOK.noFollower` — not beginning with a word that
+CONTINUES a literal in that culture's full list: multiplier suffixes `k m b …`, round-number words `thousand dozen …`,
+fraction connectors `over in out …`, regenerated in RTV/Gen/NumFollow.lean.  That the remaining entries of the real
+extractor list (23 in English) add nothing on such carriers is NOT a theorem: it is the `family` / `follower` tie of
+harness/lib/numextractcorr.py, run on the carriers of these theorems; `post_b_excluded`, `post_k_excluded`,
+`post_dozen_excluded` show the carriers `a 7777 b`, `total 1,234,567 k`, `… dozen` are outside the contract, and
+`family_ignores_follower_witness` that the family alone would report the bare literal there while the real list reports
+`7777 b` / `1,234,567 k` / nothing (`total 1,234,567 dozen`: a recorded finding)):
 * `gen_integer_definitions`, `gen_double_definitions`: the regenerated ASTs ARE `IntegerRegexDefinition(placeholder, mark)` /
   `DoubleRegexDefinition(placeholder, mark, mark)` of the model (a changed f-string, e.g. a capped group repetition,
   breaks these);
@@ -90,20 +100,36 @@ structure Cfg where
   d : Nat
   /-- index of the list entry made by `_generate_format_regex(LongFormatMode.DOUBLE_…)` for comma and dot -/
   didx : Nat
+  /-- the words that continue a literal in this extractor's full list (RTV/Gen/NumFollow.lean) -/
+  follow : List Str
+
+/-- `str.lower()` of one character where that is one character (regenerated table) -/
+def lowerC : Nat → Nat := RTV.Preprocess.lowerSimple RTV.Gen.lowerPairs
+
+/-- the follower test of `PostOK` for a follower list -/
+def folOf (follow : List Str) : Str → Bool := isFollower RTV.Gen.reTables lowerC follow
 
 /-- cultures whose family contains `IntegerRegexDefinition` for their OWN grouping mark, both modes -/
 def groupedCfgs : List Cfg := [
-  ⟨enDefaultExt, placeHolderDefault, 44, 46, 11⟩, ⟨enPureExt, placeHolderPure, 44, 46, 11⟩,       -- en-us
-  ⟨esDefaultExt, placeHolderDefaultEu, 46, 44, 16⟩, ⟨esPureExt, placeHolderPure, 46, 44, 16⟩,     -- es-es
-  ⟨frDefaultExt, placeHolderDefaultEu, 46, 44, 11⟩, ⟨frPureExt, placeHolderPure, 46, 44, 11⟩,     -- fr-fr
-  ⟨ptDefaultExt, placeHolderDefaultEu, 46, 44, 16⟩, ⟨ptPureExt, placeHolderPure, 46, 44, 16⟩,     -- pt-br
-  ⟨itDefaultExt, placeHolderDefaultEu, 46, 44, 11⟩, ⟨itPureExt, placeHolderPure, 46, 44, 11⟩]     -- it-it
+  ⟨enDefaultExt, placeHolderDefault, 44, 46, 11, Gen.NumFollow.en⟩,
+  ⟨enPureExt, placeHolderPure, 44, 46, 11, Gen.NumFollow.en⟩,       -- en-us
+  ⟨esDefaultExt, placeHolderDefaultEu, 46, 44, 16, Gen.NumFollow.es⟩,
+  ⟨esPureExt, placeHolderPure, 46, 44, 16, Gen.NumFollow.es⟩,       -- es-es
+  ⟨frDefaultExt, placeHolderDefaultEu, 46, 44, 11, Gen.NumFollow.fr⟩,
+  ⟨frPureExt, placeHolderPure, 46, 44, 11, Gen.NumFollow.fr⟩,       -- fr-fr
+  ⟨ptDefaultExt, placeHolderDefaultEu, 46, 44, 16, Gen.NumFollow.pt⟩,
+  ⟨ptPureExt, placeHolderPure, 46, 44, 16, Gen.NumFollow.pt⟩,       -- pt-br
+  ⟨itDefaultExt, placeHolderDefaultEu, 46, 44, 11, Gen.NumFollow.it⟩,
+  ⟨itPureExt, placeHolderPure, 46, 44, 11, Gen.NumFollow.it⟩]       -- it-it
 
 /-- all eight cultures (es-mx = the Spanish list with `,` `.`), both modes -/
 def allCfgs : List Cfg := groupedCfgs ++ [
-  ⟨esDefaultExt, placeHolderDefaultEu, 44, 46, 16⟩, ⟨esPureExt, placeHolderPure, 44, 46, 16⟩,     -- es-mx
-  ⟨deDefaultExt, placeHolderDefaultEu, 46, 44, 11⟩, ⟨dePureExt, placeHolderPure, 46, 44, 11⟩,     -- de-de
-  ⟨nlDefaultExt, placeHolderDefaultEu, 46, 44, 11⟩, ⟨nlPureExt, placeHolderPure, 46, 44, 11⟩]     -- nl-nl
+  ⟨esDefaultExt, placeHolderDefaultEu, 44, 46, 16, Gen.NumFollow.es⟩,
+  ⟨esPureExt, placeHolderPure, 44, 46, 16, Gen.NumFollow.es⟩,       -- es-mx
+  ⟨deDefaultExt, placeHolderDefaultEu, 46, 44, 11, Gen.NumFollow.de⟩,
+  ⟨dePureExt, placeHolderPure, 46, 44, 11, Gen.NumFollow.de⟩,       -- de-de
+  ⟨nlDefaultExt, placeHolderDefaultEu, 46, 44, 11, Gen.NumFollow.nl⟩,
+  ⟨nlPureExt, placeHolderPure, 46, 44, 11, Gen.NumFollow.nl⟩]       -- nl-nl
 
 /-- the marks of the configurations are the marks of the regenerated culture table -/
 theorem cfg_marks_regenerated :
@@ -158,7 +184,7 @@ modes, for every carrier, the model extractor returns exactly one result, at the
 length, with the literal as text. -/
 theorem grouped_literal_extracted : ∀ c ∈ groupedCfgs, ∀ (sp : Nat → Bool), SpaceOK sp →
     ∀ (l : Literal), l.WellFormed → l.Grouped3 → l.shape = .grouped →
-    ∀ (pre post : Str), PreOK RTV.Gen.reTables pre → PostOK RTV.Gen.reTables post →
+    ∀ (pre post : Str), PreOK RTV.Gen.reTables pre → PostOK RTV.Gen.reTables (folOf c.follow) post →
       QuietAt RTV.Gen.reTables c.ext (pre ++ l.text c.g c.d ++ post) pre.length (l.text c.g c.d).length →
       ∃ tag, extract RTV.Gen.reTables sp c.ext (pre ++ l.text c.g c.d ++ post) =
         [⟨pre.length, (l.text c.g c.d).length, strip sp (l.text c.g c.d), tag⟩] := by
@@ -187,7 +213,7 @@ theorem grouped_literal_extracted : ∀ c ∈ groupedCfgs, ∀ (sp : Nat → Boo
 branch of the other marks' `DoubleRegexDefinition`), both modes, every carrier: exactly one result = the literal. -/
 theorem grouped_decimal_literal_extracted : ∀ c ∈ allCfgs, ∀ (sp : Nat → Bool), SpaceOK sp →
     ∀ (l : Literal), l.WellFormed → l.Grouped3 → l.shape = .groupedDecimal → 1 ≤ l.fracDigits.length →
-    ∀ (pre post : Str), PreOK RTV.Gen.reTables pre → PostOK RTV.Gen.reTables post →
+    ∀ (pre post : Str), PreOK RTV.Gen.reTables pre → PostOK RTV.Gen.reTables (folOf c.follow) post →
       QuietAt RTV.Gen.reTables c.ext (pre ++ l.text c.g c.d ++ post) pre.length (l.text c.g c.d).length →
       ∃ tag, extract RTV.Gen.reTables sp c.ext (pre ++ l.text c.g c.d ++ post) =
         [⟨pre.length, (l.text c.g c.d).length, strip sp (l.text c.g c.d), tag⟩] := by
@@ -217,7 +243,7 @@ theorem grouped_decimal_literal_extracted : ∀ c ∈ allCfgs, ∀ (sp : Nat →
 /-- the sweep alone (`extractCore`: no negative terms, no ambiguity filters) needs no `QuietAt` -/
 theorem grouped_literal_sweep : ∀ c ∈ groupedCfgs, ∀ (sp : Nat → Bool), SpaceOK sp →
     ∀ (l : Literal), l.WellFormed → l.Grouped3 → l.shape = .grouped →
-    ∀ (pre post : Str), PreOK RTV.Gen.reTables pre → PostOK RTV.Gen.reTables post →
+    ∀ (pre post : Str), PreOK RTV.Gen.reTables pre → PostOK RTV.Gen.reTables (folOf c.follow) post →
       ∃ tag, extractCore RTV.Gen.reTables sp c.ext.fam (pre ++ l.text c.g c.d ++ post) =
         [⟨pre.length, (l.text c.g c.d).length, strip sp (l.text c.g c.d), tag⟩] := by
   intro c hc sp hsp l hw hg3 hs pre post hpre hpost
@@ -251,8 +277,9 @@ theorem spB_ok : SpaceOK spB := by
 def spans (l : List ER) : List (Nat × Nat) := l.map fun e => (e.start, e.len)
 
 /-- `total 1,234,567 .` -/
-example : PreOK RTV.Gen.reTables [116, 111, 116, 97, 108, 32] ∧ PostOK RTV.Gen.reTables [32, 46] := by
-  refine ⟨⟨Or.inr rfl, ?_⟩, ⟨Or.inr rfl, ?_⟩⟩ <;> decide +kernel
+example : PreOK RTV.Gen.reTables [116, 111, 116, 97, 108, 32] ∧
+    PostOK RTV.Gen.reTables (folOf RTV.Gen.NumFollow.en) [32, 46] := by
+  refine ⟨⟨Or.inr rfl, ?_⟩, ⟨Or.inr rfl, ?_, ?_⟩⟩ <;> decide +kernel
 
 /-- `-1,234,567` standing alone is quiet for the English list: `minus` / `the one` are nowhere -/
 example : QuietAt RTV.Gen.reTables enDefaultExt [45, 49, 44, 50, 51, 52, 44, 53, 54, 55] 0 10 := by
@@ -289,5 +316,64 @@ theorem esmx_two_groups_split_witness :
     spans (extract RTV.Gen.reTables spB esDefaultExt [49, 44, 48, 48, 48, 44, 48, 48, 48]) = [(0, 1), (2, 3), (6, 3)] ∧
     spans (extract RTV.Gen.reTables spB esPureExt [49, 44, 48, 48, 48, 44, 48, 48, 48]) = [(0, 1), (2, 3), (6, 3)] ∧
     spans (extract RTV.Gen.reTables spB esDefaultExt [49, 44, 48, 48, 48]) = [(0, 5)] := by decide +kernel
+
+/-! ## the right context: what the carrier contract excludes, and why (audit item 13) -/
+
+/-- ` b` (as in `a 7777 b`: `b` = billion suffix of `NumbersWithSuffix`) is NOT an admissible right context, in any
+configuration -/
+theorem post_b_excluded : ∀ c ∈ allCfgs, ¬ PostOK RTV.Gen.reTables (folOf c.follow) [32, 98] := by
+  have h : (allCfgs.all fun c => folOf c.follow [32, 98]) = true := by decide +kernel
+  intro c hc hp
+  have := List.all_eq_true.1 h c hc
+  rw [hp.noFollower] at this
+  cases this
+
+/-- ` k` (as in `total 1,234,567 k`), ` K`, `  k.` are not admissible either -/
+theorem post_k_excluded : ∀ c ∈ allCfgs, ¬ PostOK RTV.Gen.reTables (folOf c.follow) [32, 107] ∧
+    ¬ PostOK RTV.Gen.reTables (folOf c.follow) [32, 75] ∧ ¬ PostOK RTV.Gen.reTables (folOf c.follow) [32, 32, 107, 46] := by
+  have h : (allCfgs.all fun c => folOf c.follow [32, 107] && folOf c.follow [32, 75] &&
+      folOf c.follow [32, 32, 107, 46]) = true := by decide +kernel
+  intro c hc
+  have := List.all_eq_true.1 h c hc
+  simp only [Bool.and_eq_true] at this
+  refine ⟨fun hp => ?_, fun hp => ?_, fun hp => ?_⟩
+  · rw [hp.noFollower] at this; simp at this
+  · rw [hp.noFollower] at this; simp at this
+  · rw [hp.noFollower] at this; simp at this
+
+/-- ` dozen` and ` thousand` after an English literal are not admissible -/
+theorem post_dozen_excluded :
+    ¬ PostOK RTV.Gen.reTables (folOf Gen.NumFollow.en) [32, 100, 111, 122, 101, 110] ∧
+    ¬ PostOK RTV.Gen.reTables (folOf Gen.NumFollow.en) [32, 116, 104, 111, 117, 115, 97, 110, 100] := by
+  have h : (folOf Gen.NumFollow.en [32, 100, 111, 122, 101, 110] &&
+      folOf Gen.NumFollow.en [32, 116, 104, 111, 117, 115, 97, 110, 100]) = true := by decide +kernel
+  simp only [Bool.and_eq_true] at h
+  refine ⟨fun hp => ?_, fun hp => ?_⟩
+  · rw [hp.noFollower] at h; simp at h
+  · rw [hp.noFollower] at h; simp at h
+
+/-- ordinary right contexts ARE admissible in every configuration: ` .`, ` zq.`, ` yesterday` (the contract is not
+vacuous) -/
+theorem post_ordinary_ok : ∀ c ∈ allCfgs, PostOK RTV.Gen.reTables (folOf c.follow) [32, 46] ∧
+    PostOK RTV.Gen.reTables (folOf c.follow) [32, 122, 113, 46] ∧
+    PostOK RTV.Gen.reTables (folOf c.follow) [32, 121, 101, 115, 116, 101, 114, 100, 97, 121] := by
+  have h : (allCfgs.all fun c => !folOf c.follow [32, 46] && !folOf c.follow [32, 122, 113, 46] &&
+      !folOf c.follow [32, 121, 101, 115, 116, 101, 114, 100, 97, 121]) = true := by decide +kernel
+  intro c hc
+  have := List.all_eq_true.1 h c hc
+  simp only [Bool.and_eq_true, Bool.not_eq_true'] at this
+  refine ⟨⟨Or.inr rfl, ?_, this.1.1⟩, ⟨Or.inr rfl, ?_, this.1.2⟩, ⟨Or.inr rfl, ?_, this.2⟩⟩ <;> decide +kernel
+
+/-- What the digit family ALONE reports on the excluded carriers: the bare literal.  The real English list reports
+`7777 b` (2, 6), `1,234,567 k` (6, 11) and NOTHING for `total 1,234,567 dozen` (the union `1,234,567 dozen` of the
+matches of `IntegerRegexDefinition` and `\d+\s+dozen` is the span of no single match: the `matched[]` sweep drops it —
+finding `number:en-us:grouped:dozen-suffix:no-entity`); replayed by harness/lib/numextractcorr.py (`follower` tie). -/
+theorem family_ignores_follower_witness :
+    spans (extract RTV.Gen.reTables spB enDefaultExt [97, 32, 55, 55, 55, 55, 32, 98]) = [(2, 4)] ∧
+    spans (extract RTV.Gen.reTables spB enDefaultExt
+      [116, 111, 116, 97, 108, 32, 49, 44, 50, 51, 52, 44, 53, 54, 55, 32, 107]) = [(6, 9)] ∧
+    spans (extract RTV.Gen.reTables spB enDefaultExt
+      [116, 111, 116, 97, 108, 32, 49, 44, 50, 51, 52, 44, 53, 54, 55, 32, 100, 111, 122, 101, 110]) = [(6, 9)] := by
+  decide +kernel
 
 end RTV.Props.C03Extract
